@@ -13,7 +13,7 @@ import json,sys
 d=json.load(open(sys.argv[1]))
 rs=d['harnesses']
 for r in rs:
-    print(r.get('harness'),r.get('verdict'),'paths',r.get('paths'),'wall',r.get('wall_s'),'bounds',r.get('bound_hits'),'reach',r.get('reach'))
+    print(r.get('harness'),r.get('verdict'),'unknowns',r.get('solver_unknowns'),'paths',r.get('paths'),'wall',r.get('wall_s'),'bounds',r.get('bound_hits'),'reach',r.get('reach'))
     seen=set()
     for v in r.get('violations') or []:
         k=(v.get('assert'),v.get('msg'))
